@@ -223,6 +223,8 @@ def main(rep, tier):
     rep.configs.append({"features": "async,http", "profile": "debug", "bodies": len(f.bodies)})
     check.guard(rep, "R16", run, f)
     rep.floor("R16", "rule instances", len([i for i in rep.instances if i["status"] == "ok"]), 6)
+    import check as _c
+    _c.witnesses(rep, "C16", f)
     return rep.finish(
         "Failure paths of the decoder are side-effect free; the split is guarded and uses the bytes actually consumed by the length "
         "prefixes; one generic implementation serves both slice kinds; the encoder's count ledger balances. The zero-copy property "
